@@ -20,7 +20,10 @@ RD = {"_GET": "RSg GGet", "_POST": "RSg GPost", "_COOKIE": "RSg GCookie", "_SERV
       # $_REQUEST["id"]: the harness parses the form (as a form POST does), so http.Request.Form — which $_POST
       # is built from — also carries the query parameters and the POST part overrides the GET part on merge
       "_REQUEST": "RReq PPost", "_REQUESTP": "RReq PPost", "_REQUESTC": "RReq PCookie",
-      "rquery": "RObj", "rheader": "RObj", "local": "RLocal", "arr": "RLocal", "obj": "RLocal", "clo": "RLocal", "loop": "RLocal"}
+      "rquery": "RObj", "rheader": "RObj", "local": "RLocal", "arr": "RLocal", "obj": "RLocal", "clo": "RLocal", "loop": "RLocal",
+      # state captured by value by the handler closure (route handler = function(...) use ($carr, $cmap, $ccnt)), mutated in
+      # place by the request: each request sees it as it was at registration plus its own mutations — a private read
+      "cap_arr": "RLocal", "cap_set": "RLocal", "cap_get": "RLocal", "cap_cnt": "RLocal"}
 GLOBAL_OF = {"_GET": "_GET", "_POST": "_POST", "_COOKIE": "_COOKIE", "_SERVER": "_SERVER",
              "_REQUEST": "_REQUEST", "_REQUESTP": "_REQUEST", "_REQUESTC": "_REQUEST"}
 SG = ["_GET", "_POST", "_COOKIE", "_SERVER", "_REQUEST", "_REQUESTP", "_REQUESTC"]
@@ -153,6 +156,17 @@ def gated_cases(rng, tier):
                 cases.append({"segs": prog, "nreq": 3, "schedule": sch, "route": "mux", "mw": mw, "group": group, "warmup": True, "quiet": True, "gen": "middleware-after-parked"})
     for sch in interleavings([4, 4]):
         cases.append({"segs": [["local"], ["rquery"]], "nreq": 2, "schedule": list(sch), "route": "mux", "mw": 1, "mwsg": True, "quiet": True, "gen": "middleware-after-sg"})
+    # the route handler is a closure that captured an array, a map and a counter by value at registration and mutates them
+    # in place (append, key store, increment): after a warm-up request, serial requests in every order (appends must not
+    # accumulate), every interleaving of two requests (a key stored before a gate is read back after it), parked shapes
+    capprog = [["cap_arr", "cap_set", "cap_cnt", "local"], ["cap_get", "cap_arr", "cap_cnt", "rquery"]]
+    for mw in (0, 1):
+        for order in itertools.permutations(range(3)):
+            cases.append({"segs": capprog, "nreq": 3, "schedule": [i for i in order for _ in range(3)], "route": "mux", "mw": mw, "cap": True, "warmup": True, "gen": "captured-serial"})
+        for sch in interleavings([3, 3]):
+            cases.append({"segs": capprog, "nreq": 2, "schedule": list(sch), "route": "mux", "mw": mw, "cap": True, "warmup": mw == 0, "gen": "captured-2x2"})
+        for sch in ([0, 0, 1, 1, 1, 2, 2, 2, 0], [0, 1, 2, 2, 1, 0, 0, 1, 2]):
+            cases.append({"segs": capprog, "nreq": 3, "schedule": sch, "route": "mux", "mw": mw, "cap": True, "group": mw == 1, "warmup": True, "gen": "captured-parked"})
     # a middleware that reads $_GET BEFORE $next (after a gate): serial orders (must be clean: the reset happens at the
     # entry of the outermost layer) and every interleaving of two requests (stages: entry, mw read + handler segment 1, ...)
     for mw in (1, 2):
@@ -175,6 +189,10 @@ def gated_cases(rng, tier):
         c = {"segs": prog, "nreq": n, "schedule": sch, "route": rng.choice(["handler", "mux", "mux"]), "gen": "seeded"}
         if c["route"] == "mux":
             c.update({"mw": rng.randint(0, 2), "group": rng.random() < 0.4, "warmup": rng.random() < 0.6})
+            if rng.random() < 0.3:
+                # closure handler with captured state: a key store first, then captured reads mixed into the program
+                c["cap"] = True
+                c["segs"] = [["cap_set"] + prog[0]] + [sg + [rng.choice(["cap_arr", "cap_get", "cap_cnt"])] for sg in prog[1:]]
         cases.append(c)
     return cases
 
@@ -218,6 +236,8 @@ def load_cases(rng, tier):
             cases.append({"segs": prog, "nreq": n, "gomaxprocs": procs, "rounds": 3 if tier == "quick" else 10})
         cases.append({"segs": progs[2], "nreq": n, "gomaxprocs": procs, "rounds": 3 if tier == "quick" else 10,
                       "route": "mux", "mw": 2, "group": n % 16 == 0, "warmup": True})
+        cases.append({"segs": [["cap_arr", "cap_set", "cap_cnt", "local"], ["cap_get", "cap_arr", "cap_cnt", "rquery"]], "nreq": n, "gomaxprocs": procs,
+                      "rounds": 3 if tier == "quick" else 10, "route": "mux", "mw": n % 2, "cap": True, "warmup": True})
     return cases
 
 
@@ -251,7 +271,7 @@ def stuck(ck, c, o, what):
     d = o["deadlock"]
     # a request that passed its own gate but turned up at ANOTHER request's gate: it is running with foreign data
     shape = "foreign-gate" if d.get("unexpected_arrivals") else "no-progress"
-    rep = {"case": {k: c[k] for k in ("segs", "nreq", "schedule", "route", "mw", "mwsg", "group", "warmup", "quiet", "yields", "gen") if k in c},
+    rep = {"case": {k: c[k] for k in ("segs", "nreq", "schedule", "route", "mw", "mwsg", "group", "warmup", "quiet", "cap", "yields", "gen") if k in c},
            "executed_order": o.get("order"), "deadlock": d, "finished_responses": o.get("finished"),
            "clause": "private_state_isolated / every request is answered: released request %s (stage %s) neither reached a gate of its own nor "
                      "finished within %s ms; arrivals at other requests' gates: %s" % (d.get("released"), d.get("stage_before"), d.get("after_ms"), d.get("unexpected_arrivals"))}
@@ -316,7 +336,7 @@ def main(ck):
     interfering = 0
     for j, cls in sorted(bad.items(), key=lambda kv: len(gcases[idx[kv[0]]]["schedule"])):
         c, o = gcases[idx[j]], gouts[idx[j]]
-        rep = {"case": {k: c[k] for k in ("segs", "nreq", "schedule", "route", "mw", "mwsg", "group", "warmup", "quiet", "gen") if k in c}, "executed_order": o["order"], "impl_out": o["resps"], "clauses": cls}
+        rep = {"case": {k: c[k] for k in ("segs", "nreq", "schedule", "route", "mw", "mwsg", "group", "warmup", "quiet", "cap", "gen") if k in c}, "executed_order": o["order"], "impl_out": o["resps"], "clauses": cls}
         if 1 in cls:
             ck.broken.append("correspondence:C11.gated")
             ck.violation("tie:gated", dict(rep, clause="model vs implementation (tie)"))
